@@ -240,6 +240,17 @@ func (env *SpecEnv) eval(e *Expr) *SV {
 		}
 		return &SV{T: MkSlice(SArr(a.T), Add(SOff(a.T), lo), Sub(hi, lo), Sub(SCap(a.T), lo)), Ty: a.Ty}
 	case "call":
+		if e.Name == "entry" && len(e.Args) == 1 {
+			// entry(e): e in the function's entry state - parameters have their entry values (they
+			// may be reassigned in the body), the heap is the entry heap; bound variables stay visible
+			if env.old == nil {
+				return env.eval(e.Args[0])
+			}
+			o := *env.old
+			o.bound = env.bound
+			o.old = nil
+			return o.eval(e.Args[0])
+		}
 		return env.call(e)
 	}
 	stale("cannot evaluate %s", e)
